@@ -7,18 +7,56 @@ import os
 VERIF = os.path.dirname(os.path.dirname(os.path.abspath(__file__)))
 
 # id -> (technique, level text, level note, design ref)
+COMMON_NOTE = ("bounded scopes as listed in the evidence file; trusted: CPython, the reference models in pmc/ref "
+               "(no shared code with the library, self-tested at start-up and compared with the implementation on every "
+               "generated document), the generators in pmc/universe")
+
 CLAIMED = {
-    "C02": (
-        "bounded-exhaustive input-space exploration (E1) of the real Node.slice/cut/replace against a flat-token splice model",
-        "Every document of the listed scopes x every position pair x every reference-computed slice of the donor "
-        "scope is executed on the real code and compared with the token-splice reference (result tokens, size, "
-        "rejection exactly when the spliced sequence is ill-formed or schema-invalid). Exhaustive inside the bounds, "
-        "nothing sampled.",
-        "bounded scopes (documents <= 6-16 tokens depending on vocabulary); trusted: CPython, the reference token/"
-        "validity/content-expression models in pmc/ref (self-tested at start-up and compared with the implementation "
-        "on every generated document)",
-        "DESIGN.md 5/C02",
-    ),
+    "C01": ("bounded-exhaustive exploration (E1) of Step.apply over all steps of the eight types; every returned "
+            "document validated at every node by an independent reference validator",
+            "All scope documents x every step (all ranges x pool slices x structure flag; wrap/unwrap/retag "
+            "replace-around shapes, thorough: all quadruples; all mark ranges; all node-mark/attr/doc-attr steps), applied "
+            "as built and after a real JSON encode/decode: outcome must be failure or a fully valid document, never "
+            "an internal error.", COMMON_NOTE, "DESIGN.md 5/C01"),
+    "C02": ("bounded-exhaustive input-space exploration (E1) of Node.slice/cut/replace against a flat-token splice model",
+            "Every document of the listed scopes x every position pair x every reference-computed slice of the donor "
+            "scope is executed on the real code and compared with the token-splice reference (result tokens, size, "
+            "rejection exactly when the spliced sequence is ill-formed or schema-invalid).", COMMON_NOTE, "DESIGN.md 5/C02"),
+    "C03": ("bounded-exhaustive exploration: every applied primitive step (E1) and every step emitted by the transform "
+            "operation menu on initial and reachable documents (E2), checked against a token-alignment oracle",
+            "For every applied step: size delta = sum(new-old), every old token outside the map's ranges is found "
+            "unchanged at the shifted index, map() agrees; Transform.mapping equals the steps' maps and composes "
+            "faithfully.", COMMON_NOTE, "DESIGN.md 5/C03"),
+    "C05": ("bounded-exhaustive exploration (E1) of to_json -> json.dumps -> json.loads -> from_json for every document, "
+            "fragment, slice, mark and step of the pools, with deep mutation of the produced JSON to expose aliasing",
+            "Equal object, identical JSON, identical step effect/map on a document pool, no aliasing of live attrs, "
+            "registry decodes all eight step types.", COMMON_NOTE, "DESIGN.md 5/C05"),
+    "C06": ("automaton-product exploration (E3): all expression syntax trees up to a node bound compiled by the real "
+            "Schema; reachable pairs (ContentMatch state, Brzozowski derivative) explored to closure",
+            "Language equivalence for child sequences of unbounded length is decided on the product automaton of every "
+            "enumerated expression; malformed token strings up to a length bound must be rejected.", COMMON_NOTE,
+            "DESIGN.md 5/C06"),
+    "C07": ("bounded-exhaustive exploration (E1) of the validity predicates on all small trees (valid or not), all "
+            "single-fault mutations of valid documents and all child ranges x replacement fragments",
+            "check/valid_content/can_replace/can_replace_with/can_append/create_checked answer exactly as the reference "
+            "validator on every enumerated input.", COMMON_NOTE, "DESIGN.md 5/C07"),
+    "C08": ("bounded-exhaustive exploration of all step maps with <= 3 ranges x all positions x both sides (E1) and of "
+            "all mapping construction histories of <= 3 maps incl. mirrored palindromes (E2)",
+            "Positions, monotonicity, deletion flags, recover, touches, for_each, inversion; mappings equal the "
+            "left-to-right composition under slice/append/invert; mirrored pairs return every position.", COMMON_NOTE,
+            "DESIGN.md 5/C08"),
+    "C09": ("bounded-exhaustive exploration (E1): every position and position pair of every scope document x every "
+            "ResolvedPos / Node traversal accessor, compared with a counting reference on the JSON tree",
+            "All accessors agree with the flat token picture, in UTF-16 units, including astral text and non-inclusive "
+            "marks.", COMMON_NOTE, "DESIGN.md 5/C09"),
+    "C14": ("explicit-state exploration (E2) of the mark-set graph of every configuration of an enumerated family of "
+            "mark schemas, to closure",
+            "Every reachable mark set is canonical; add/remove/membership/equality/set_from/allowed_marks agree with "
+            "the reference mark algebra on every transition and every list of <= 3 marks.", COMMON_NOTE, "DESIGN.md 5/C14"),
+    "C15": ("automaton-product exploration (E3) for fill_before on every reachable match state of every enumerated "
+            "expression; exhaustive wrapper search comparison on the zoo and the F-gen schema family",
+            "fill_before sound and complete against an exact search on the derivative automaton; find_wrapping sound, "
+            "complete and shortest against a reference BFS; create_and_fill sound.", COMMON_NOTE, "DESIGN.md 5/C15"),
 }
 
 NOT_YET = {
